@@ -34,3 +34,11 @@ func seqExec(seed uint64, p *prog.Program, opt run.Options) (*run.Runner, *RunRe
 func rotations(res *RunResult) int { return res.IO["trunc"] }
 
 var _ = core.Mix
+
+func sortStrings(xs []string) {
+	for i := 1; i < len(xs); i++ {
+		for j := i; j > 0 && xs[j] < xs[j-1]; j-- {
+			xs[j], xs[j-1] = xs[j-1], xs[j]
+		}
+	}
+}
